@@ -47,9 +47,9 @@ var families = []string{
 }
 
 type gen struct {
-	r    *vh.Rand
-	root string
-	deny []string // file-reading function names (from factgen when available)
+	r          *vh.Rand
+	root       string
+	deny       []string // file-reading function names (from factgen when available)
 	tableFuncs []string // every table function / table macro of the linked DuckDB
 }
 
@@ -104,7 +104,9 @@ var shapes = []shapeFn{
 	{"from", func(ok, ref string) string { return "SELECT canary FROM " + ref }},
 	{"from-alias", func(ok, ref string) string { return "SELECT t.canary FROM " + ref + " AS t WHERE t.v >= 0" }},
 	{"join", func(ok, ref string) string { return "SELECT b.canary FROM " + ok + " a JOIN " + ref + " b ON true" }},
-	{"left-join", func(ok, ref string) string { return "SELECT b.canary FROM " + ok + " a LEFT OUTER JOIN " + ref + " b ON a.v = b.v" }},
+	{"left-join", func(ok, ref string) string {
+		return "SELECT b.canary FROM " + ok + " a LEFT OUTER JOIN " + ref + " b ON a.v = b.v"
+	}},
 	{"cross-join", func(ok, ref string) string { return "SELECT b.canary FROM " + ok + " a CROSS JOIN " + ref + " b" }},
 	{"comma", func(ok, ref string) string { return "SELECT b.canary FROM " + ok + " a, " + ref + " b" }},
 	{"comma-after-subquery", func(ok, ref string) string {
@@ -116,7 +118,9 @@ var shapes = []shapeFn{
 		return "SELECT host FROM " + ok + " WHERE host IN (SELECT host FROM " + ref + ")"
 	}},
 	{"scalar-subquery", func(ok, ref string) string { return "SELECT (SELECT max(canary) FROM " + ref + ") AS c" }},
-	{"union", func(ok, ref string) string { return "SELECT canary FROM " + ok + " UNION ALL SELECT canary FROM " + ref }},
+	{"union", func(ok, ref string) string {
+		return "SELECT canary FROM " + ok + " UNION ALL SELECT canary FROM " + ref
+	}},
 	{"join-lateral", func(ok, ref string) string {
 		return "SELECT b.canary FROM " + ok + " a JOIN LATERAL (SELECT * FROM " + ref + ") b ON true"
 	}},
@@ -486,7 +490,9 @@ func (g *gen) randomStmt() stmt {
 		}
 	}
 	kwFrom := g.pick([]string{"FROM", "from", "From", "FROM", "fRoM"})
-	sep := func() string { return g.pick([]string{" ", " ", " ", "\n", "\t", "  ", " /* */ ", "\r\n", " --\n", "/**/"}) }
+	sep := func() string {
+		return g.pick([]string{" ", " ", " ", "\n", "\t", "  ", " /* */ ", "\r\n", " --\n", "/**/"})
+	}
 	var b strings.Builder
 	if g.r.Chance(25) {
 		b.WriteString("WITH" + g.pick([]string{" ", " ", "\n", "\t"}) + g.pick([]string{"w", "cpu", "mem", "x"}) + g.pick([]string{"", "(a)", " (a, b)"}) +
